@@ -177,6 +177,8 @@ def addLine (p : Prog) (ws : List String) : Prog :=
   | ["config", "cblimit", v] => { p with cblimit := nat! v }
   | "config" :: "eintr" :: _ => p
   | "config" :: "full" :: _ => p
+  | ["config", "default_loop", _] => p      -- which uv_loop_t is under test makes no difference to the model
+  | ["config", "sigpipe", _] => p
   | ["config", "polllimit", _] => p
   | "on" :: key :: occ :: rest =>
     match keyOf key with
